@@ -1,7 +1,8 @@
-\* C25 leg A thorough: strings {"", "a", "ab", "b"}; exemplars with 0..1 labels; payload slice: 648 histogram shapes
+\* C25 leg A thorough: strings {"", "a", "ab"}; one or two tenants with <= 1 series each, label
+\* lists 0..1, optional exemplar with 0..1 labels (12 432 requests); payload slice: 648 histogram shapes
 \* (two reset hints) x samples {0,1,2} x exemplars {0,1,2}
 SPECIFICATION Spec
-CONSTANTS Strs3 <- StrsB
+CONSTANTS Strs3 <- StrsNone
           ExLabelMax = 1
           TwoSeries = FALSE
           Hints = {"0", "2"}
